@@ -29,6 +29,8 @@ def main(argv=None):
     os.environ.setdefault('PYTHONHASHSEED', '0')
     if common.REPO not in sys.path:
         sys.path.insert(0, common.REPO)
+    import logging
+    logging.disable(logging.CRITICAL)
     rc = 2
     try:
         if a.prop == 'selftest':
